@@ -157,7 +157,7 @@ pub fn run(ctx: &Ctx) -> Report {
     rep.rule = format!("Cases: grammar-generated mappings (up to 12 class blocks) and corpus files. Each mapping is written twice in the parent (two fresh writer invocations => differently seeded HashSet/HashMap instances), from 8 concurrently running threads, and by {CHILDREN} separately started child processes (fresh hash seeds, different allocation addresses) that return digests (two 64-bit hashes + length). Oracle: all digests identical; output length == length implied by its own header. evaluations = write invocations compared. Non-trivial = distinct mappings with >=2 classes, >=3 distinct strings and >=1 by-params group of >=2 entries (so hash-ordered emission would have something to permute).");
     rep.assumptions = vec!["one platform (x86_64 Linux); endianness / pointer-width dependent ordering is out of reach".into()];
     let collected: Mutex<Vec<(Vec<u8>, String)>> = Mutex::new(Vec::new());
-    let n = ctx.cases(2500, 40_000);
+    let n = ctx.cases(2500, 120_000);
     rep.run_stage("ast", || map_case(&cfg()), n, |case: &MapCase, st: &mut Stats| {
         let bytes = case.bytes();
         if classify(case, st) {
